@@ -1140,9 +1140,17 @@ where
         XFRState::AXFRFirstSoa(_)
         | XFRState::IXFRFirstSoa(_)
         | XFRState::IXFRFirstDiffSoa(_)
-        | XFRState::IXFRSecondDiffSoa(_) =>
-            // No need to check anything.
-            {}
+        | XFRState::IXFRSecondDiffSoa(_) => {
+            // A later message may leave the question section empty. If it
+            // has one, it has to be the question of the request: a message
+            // that merely carries the same ID is not part of this response.
+            if answer.header_counts().qdcount() > 0
+                && !msg.is_answer(answer.for_slice())
+            {
+                xfr_state = XFRState::Error;
+                return (false, xfr_state, false);
+            }
+        }
         XFRState::Done => {
             // We should not be here. Switch to error state.
             xfr_state = XFRState::Error;
